@@ -27,6 +27,15 @@ impl Prop for Corr {
                 html.push_str(&format!("<style>{sh}</style>"));
             }
             html.push_str(&gen_doc(r, k).0);
+            // an id on an element that renders nothing still yields a fragment marker node
+            if r.p(6) {
+                let t = *r.pick(&[&"<script id=\"zs1\">var x;</script>", &"<style id=\"zs2\">q{}</style>", &"<title id=\"zs3\">T</title>", &"<template id=\"zs4\"><p>x</p></template>", &"<head id=\"zs5\"></head>"]);
+                if r.p(50) {
+                    html.push_str(t);
+                } else {
+                    html = format!("{t}{html}");
+                }
+            }
             let mut cfg = mk_cfg(r, css);
             if css {
                 if r.p(45) {
